@@ -98,13 +98,28 @@ def judge(case):
     except Exception as err:  # pylint: disable=broad-except
         out.bad("repr-not-evaluable", f"{name}: eval(repr(m)) raises {type(err).__name__}: {err}")
     # the same for a message built with another label option, through each way of building it
+    import io as _io  # pylint: disable=import-outside-toplevel
+
     for lm in (2, 0):
+        ref_attrs = None
         for how, make in (("constructor", lambda lm=lm: RTCMMessage(payload=payload, labelmsm=lm)),
-                          ("parse", lambda lm=lm: RTCMReader.parse(want, labelmsm=lm))):
+                          ("parse", lambda lm=lm: RTCMReader.parse(want, labelmsm=lm)),
+                          ("parse(validate=0)", lambda lm=lm: RTCMReader.parse(want, labelmsm=lm, validate=0)),
+                          ("reader", lambda lm=lm: RTCMReader(_io.BytesIO(want), labelmsm=lm).read()[1]),
+                          ("reader(validate=0)", lambda lm=lm: RTCMReader(_io.BytesIO(want), labelmsm=lm,
+                                                                          validate=0).read()[1])):
             try:
                 m2 = make()
+                if m2 is None:
+                    raise ValueError("no message")
             except Exception:  # pylint: disable=broad-except
                 continue  # reported by C16 / C04
+            # serialise -> read back gives the same attribute values, whichever entry point reads
+            if ref_attrs is None:
+                ref_attrs = R.public_attrs(m2)
+            elif R.public_attrs(m2) != ref_attrs:
+                out.bad("parse-not-inverse", f"{name}: the frame read back through {how} with labelmsm={lm} "
+                        f"has other attribute values than the message it was serialised from")
             try:
                 clone = eval(repr(m2), {"RTCMMessage": RTCMMessage, "__builtins__": {}})  # pylint: disable=eval-used
                 if clone.payload != payload:
